@@ -370,16 +370,32 @@ void thrift_read_map_begin(thrift_decoder_t* dec,
 /* Skip one element of a list, set or map. Unlike struct fields, whose
  * boolean value lives in the field header, a boolean inside a container
  * is stored as one byte. */
-static void skip_container_element(thrift_decoder_t* dec, thrift_type_t type) {
+static void skip_value(thrift_decoder_t* dec, thrift_type_t type, int depth);
+
+static void skip_container_element(thrift_decoder_t* dec, thrift_type_t type, int depth) {
     if (type == THRIFT_TYPE_TRUE || type == THRIFT_TYPE_FALSE) {
         read_byte_raw(dec);
         return;
     }
-    thrift_skip(dec, type);
+    skip_value(dec, type, depth);
 }
 
 void thrift_skip(thrift_decoder_t* dec, thrift_type_t type) {
+    skip_value(dec, type, 0);
+}
+
+/* depth counts the containers and structs being skipped around this value;
+ * it is bounded like struct nesting so that hostile input cannot drive the
+ * recursion arbitrarily deep. */
+static void skip_value(thrift_decoder_t* dec, thrift_type_t type, int depth) {
     if (dec->status != CARQUET_OK) {
+        return;
+    }
+
+    if (depth >= THRIFT_MAX_NESTING &&
+        (type == THRIFT_TYPE_LIST || type == THRIFT_TYPE_SET ||
+         type == THRIFT_TYPE_MAP || type == THRIFT_TYPE_STRUCT)) {
+        set_error(dec, CARQUET_ERROR_THRIFT_DECODE, "Container nesting too deep");
         return;
     }
 
@@ -423,7 +439,7 @@ void thrift_skip(thrift_decoder_t* dec, thrift_type_t type) {
             int32_t count;
             thrift_read_list_begin(dec, &elem_type, &count);
             for (int32_t i = 0; i < count && dec->status == CARQUET_OK; i++) {
-                skip_container_element(dec, elem_type);
+                skip_container_element(dec, elem_type, depth + 1);
             }
             break;
         }
@@ -433,8 +449,8 @@ void thrift_skip(thrift_decoder_t* dec, thrift_type_t type) {
             int32_t count;
             thrift_read_map_begin(dec, &key_type, &value_type, &count);
             for (int32_t i = 0; i < count && dec->status == CARQUET_OK; i++) {
-                skip_container_element(dec, key_type);
-                skip_container_element(dec, value_type);
+                skip_container_element(dec, key_type, depth + 1);
+                skip_container_element(dec, value_type, depth + 1);
             }
             break;
         }
@@ -444,7 +460,7 @@ void thrift_skip(thrift_decoder_t* dec, thrift_type_t type) {
             thrift_type_t field_type;
             int16_t field_id;
             while (thrift_read_field_begin(dec, &field_type, &field_id)) {
-                thrift_skip(dec, field_type);
+                skip_value(dec, field_type, depth + 1);
             }
             thrift_read_struct_end(dec);
             break;
